@@ -5,7 +5,9 @@ import json, subprocess, os
 here = os.path.dirname(os.path.abspath(__file__))
 src = json.load(open(os.path.join(here, "manifest_src.json")))
 props = [json.loads(l) for l in open(os.path.join(here, "properties.jsonl"))]
-hook_commits = subprocess.run(["git","-C","/repo","log","--grep=^verif:","--format=%H"],capture_output=True,text=True).stdout.split()
+# every commit that touches a guarded contract file (all are comment-only files named verif_contracts.go)
+hook_commits = subprocess.run(["git","-C","/repo","log","--format=%H","--",":(glob)**/verif_contracts.go"],capture_output=True,text=True).stdout.split()
+# (one of them, 086443d, is a "fix:" commit that also carries a 9-line edit of its package's contract file)
 checks = []
 na = []
 for p in props:
